@@ -680,7 +680,7 @@ func init() {
 			}
 		}
 		// engine self-test: schedule-independent concurrent programs, every interleaving, replayed natively
-		for prog := int64(0); prog <= 3; prog++ {
+		for prog := int64(0); prog <= 5; prog++ {
 			out = append(out, Inst{Pkg: "knx", Fn: "HarnessSelfTestConc", Args: []int64{prog}, Ctx: 2, ForceNative: true, Note: "validation of the engine's channel/select/mutex/once/recover model against the Go runtime"})
 		}
 		for late := int64(0); late < 2; late++ {
